@@ -142,23 +142,44 @@ def runHistory (parse : Bool → String → P) (compute : R → String × String
 
 /-! ### concrete registrations: types with their MRO, tagged handlers
 
-  `TargetRegistry.register(target_type, **kw)` stores, for every op of `kw` and every op with an
-  auto-discovery function (`get`, `iterate`), the keyword handler, else the handler already stored
-  for exactly that type, else the auto-discovered one (`getattr` / `iter`: the tag `"default"`).
-  A lookup for an object of exact type `t` finds the handler of the nearest type in `t`'s MRO that
-  has one (for real — non-virtual — subclasses that is what `_get_closest_type` computes; the tree
-  walk itself is C13's subject); `object` is registered by default, so there is always one. -/
+  `TargetRegistry.register(target_type, exact=False, **kw)` stores in `_op_type_map[op][target_type]`,
+  for every op of `kw` and every op with an auto-discovery function (`get`, `iterate`, and the
+  operations added with `register_op`: `assign`, `delete`), the keyword handler, else the handler
+  already stored for exactly that type, else the auto-discovered one (`getattr` / `iter` / `setattr`
+  / `delattr`: the tag `"default"`); unless `exact=True` it also enters the type into the type tree
+  of each of these ops (`_register_fuzzy_type`: the tree is never pruned, so a type that was once
+  registered without `exact` stays in it).
+
+  A lookup for an object of exact type `t` (`get_handler`): `type_map[t]` when `t` itself was
+  registered (exact or not); else the closest type *of the tree* the object is an instance of:
+  the nearest type in `t`'s MRO that is in the tree (for real — non-virtual — subclasses that is
+  what `_get_closest_type` computes: `min(candidates, key=mro.index)`), else — candidates that
+  are not in the MRO at all — an ABC the object is a *virtual* instance of (`ABC.register`,
+  `__subclasshook__`, `collections.abc`); its handler is then `type_map[closest]`: the handler
+  *currently* stored for that type, also when it was last registered with `exact=True`.
+  `object` is registered by default, so for `get` / `iterate` / `assign` / `delete` there is always
+  a handler; for `keys` there is one when the instance has a `__dict__`.
+
+  Virtual bases (`virt`) are consulted where the choice among the candidates outside the MRO is
+  determined by the registrations of the case alone: for `get` and `iterate` (an ABC that
+  defines `__iter__` lies below `_AbstractIterable` in the tree and is the deepest match), and
+  for every op when the instance has no `__dict__` (no `_ObjStyleKeys` candidate); the tie between
+  `_ObjStyleKeys` and an ABC for `keys` / `assign` / `delete` on instances with a `__dict__` is
+  C13's subject and is not asked of this model (the harness does not generate it). -/
 
 abbrev Tag := String
 
 structure TReg where
   mro : List (String × List String) := []           -- type ↦ its MRO (itself first), as Python computed it
-  entries : List ((String × String) × Tag) := []    -- (type, op) ↦ handler, newest first
+  entries : List ((String × String) × Tag) := []    -- `_op_type_map`: (type, op) ↦ handler, newest first
   nodefault : List (String × String) := []          -- (exact type, op) with no built-in handler (`keys` of an
                                                     -- object without `__dict__`): the lookup raises unless a
                                                     -- type of the MRO is registered for `op`
+  fuzzy : List (String × String) := []              -- `_op_type_tree`: (type, op) registered at least once without `exact=True`
+  virt : List (String × List String) := []          -- type ↦ the ABCs (iterable ones) its instances are virtual
+                                                    -- instances of (`isinstance` holds, not in the MRO), as Python computed it
 
-def autoOps : List String := ["get", "iterate"]
+def autoOps : List String := ["get", "iterate", "assign", "delete"]
 
 def regOps (kw : List (String × Tag)) : List String := (kw.map (·.1) ++ autoOps).eraseDups
 
@@ -174,22 +195,38 @@ def newEntries (entries : List ((String × String) × Tag)) (ty : String) (kw : 
     List ((String × String) × Tag) :=
   (regOps kw).map (fun op => ((ty, op), pickTag entries ty kw op))
 
-def TReg.register (r : TReg) (ty : String) (kw : List (String × Tag)) : TReg :=
-  { r with entries := newEntries r.entries ty kw ++ r.entries }
+/-- `register(ty, exact=exact, **kw)` -/
+def TReg.register (r : TReg) (ty : String) (kw : List (String × Tag)) (exact : Bool := false) : TReg :=
+  { r with entries := newEntries r.entries ty kw ++ r.entries,
+           fuzzy := if exact then r.fuzzy else (regOps kw).map (fun op => (ty, op)) ++ r.fuzzy }
 
-/-- the first type of an MRO with a handler for `op` -/
-def firstRegistered (entries : List ((String × String) × Tag)) (op : String) : List String → Option Tag
+/-- the handler a lookup for exact type `ty` can get from type `c`: `type_map[c]` when `c` is the
+    type itself or is in the type tree -/
+def handlerVia (entries : List ((String × String) × Tag)) (fuzzy : List (String × String))
+    (ty op c : String) : Option Tag :=
+  if c == ty || fuzzy.contains (c, op) then assocGet entries (c, op) else none
+
+/-- the first type of a list of candidates (nearest first) that gives a handler -/
+def firstRegistered (via : String → Option Tag) : List String → Option Tag
   | [] => none
-  | c :: cs => match assocGet entries (c, op) with
+  | c :: cs => match via c with
     | some h => some h
-    | none => firstRegistered entries op cs
+    | none => firstRegistered via cs
 
 def TReg.mroOf (r : TReg) (ty : String) : List String := (assocGet r.mro ty).getD [ty]
 
-/-- the uncached lookup: nearest registered type in the MRO, else the built-in handler (`getattr`,
-    `iter`, `_ObjStyleKeys.get_keys`) when the type has one, else UnregisteredTarget (`none`) -/
+/-- the virtual bases a lookup of `op` for exact type `ty` falls back to after the MRO -/
+def TReg.virtOf (r : TReg) (ty op : String) : List String :=
+  if op == "get" || op == "iterate" || r.nodefault.contains (ty, "keys") then (assocGet r.virt ty).getD [] else []
+
+/-- the candidates of a lookup, nearest first: the MRO, then the virtual bases -/
+def TReg.candidates (r : TReg) (ty op : String) : List String := r.mroOf ty ++ r.virtOf ty op
+
+/-- the uncached lookup: nearest registered candidate, else the built-in handler (`getattr`,
+    `iter`, `_ObjStyleKeys.get_keys`, `setattr`, `delattr`) when the type has one, else
+    UnregisteredTarget (`none`) -/
 def TReg.compute (r : TReg) (key : String × String) : Option Tag :=
-  match firstRegistered r.entries key.2 (r.mroOf key.1) with
+  match firstRegistered (handlerVia r.entries r.fuzzy key.1 key.2) (r.candidates key.1 key.2) with
   | some h => some h
   | none => if r.nodefault.contains key then none else some "default"
 
